@@ -471,11 +471,22 @@ func checkC01(c *Ctx, r *Report) {
 				return
 			}
 			for _, st := range sel.States {
-				call, ok := stripConv(st.Chan).(*ssa.Call)
+				chv := stripConv(st.Chan)
+				// time.After(d), or the channel of a timer made with time.NewTimer(d)
+				if ld, isLd := chv.(*ssa.UnOp); isLd && ld.Op == token.MUL {
+					if fa, isFA := ld.X.(*ssa.FieldAddr); isFA && fieldName(fa) == "C" {
+						t := fa.X
+						for i := 0; i < 4; i++ {
+							t = resolveLocalLoad(t)
+						}
+						chv = t
+					}
+				}
+				call, ok := chv.(*ssa.Call)
 				if !ok || len(call.Call.Args) != 1 {
 					continue
 				}
-				if obj := calleeObj(&call.Call); obj == nil || obj.Pkg() == nil || obj.Pkg().Path() != "time" || obj.Name() != "After" {
+				if obj := calleeObj(&call.Call); obj == nil || obj.Pkg() == nil || obj.Pkg().Path() != "time" || (obj.Name() != "After" && obj.Name() != "NewTimer") {
 					continue
 				}
 				n++
@@ -484,7 +495,7 @@ func checkC01(c *Ctx, r *Report) {
 			}
 		})
 		if n == 0 {
-			r.info("C01.R9", fnKey(cf)+"|time-out of the wait", c.rel(cf.Pos()), "the wait is not a select on time.After (C19.R6 decides whether it is bounded)")
+			r.proven("C01.R9", fnKey(cf)+"|time-out of the wait", c.rel(cf.Pos()), "the wait is not a select on a time.After / time.NewTimer constant: nothing to compare with the 5 s here (C19.R6 decides whether the wait is bounded)")
 		}
 	}
 	abmfWidthRules(c, r, "C01.R8")
